@@ -5,7 +5,9 @@
    (Spec/MessageSpec.v). *)
 From KV Require Import Lib.Bytes Model.Headers Model.Parser Model.Body Model.Printer Model.Client
   Spec.HeaderStore Spec.ChunkedSpec Spec.MessageSpec Spec.PrinterSpec Spec.HttpGrammar
-  Proofs.PrinterRound Proofs.ClientRoundBase Proofs.ClientRound.
+  Proofs.PrinterRound Proofs.ClientRoundBase Proofs.ClientRound Proofs.ServerRoundBase Proofs.ServerRound.
+From KV Require Import Model.ServerRecv.
+From KV Require Model.Server.
 
 (* [inputs_ok code reason fs dv] (Spec/PrinterSpec.v): 100 <= code <= 999, a CR/LF-free reason, printable user fields, a
    printable date value *)
@@ -146,3 +148,47 @@ Theorem C08_client_field_name_refuted : exists code reason dated fs dv body acce
   client_receive (out_of (write_response_bytes code reason (user_headers dated fs) (date_line dv) body accepted)) = None.
 Proof. exact client_field_name_refuted. Qed.
 Print Assumptions C08_client_reason_refuted.
+
+
+(* ------------------------------------------------------------------ requests written by the client, read back by the server
+   [server_receive wire] (Model/ServerRecv.v) is Request::parse followed by the body reader of BodyReader::from_request read to
+   the end.  Under [server_inputs_ok] - an alphabetic method, a target parse_uri accepts and reports unchanged, token field
+   names - the server obtains exactly the method, the target, the header collection and the body the client printed, and the
+   framing gate of handle_one_request (Transfer-Encoding not ending in chunked: 400) passes. *)
+Theorem C08_server_reader : forall method uri dated fs dv pieces accepted,
+  wf_user_fields fs = true -> wf_date_value dv = true -> server_inputs_ok method uri fs = true ->
+  (N.of_nat (length (concat pieces)) < 2 ^ 64)%N ->
+  (declared_chunked fs = true \/ declared_length fs = None \/ declared_length fs = Some (N.of_nat (length (concat pieces)))) ->
+  exists r framing,
+    server_receive (out_of (write_request method uri (user_headers dated fs) (date_line dv) pieces accepted))
+      = Some (method, uri, r, concat pieces)
+    /\ r = headers_of (shown_fields dated fs dv ++ framing)
+    /\ stored r = shown_fields dated fs dv ++ filter (fun f => negb (is_clf f)) framing
+    /\ Server.te_present r && negb (Server.te_final_chunked r) = false
+    /\ framing_for fs (length (concat pieces)) framing.
+Proof. exact server_reads_request_reader. Qed.
+Print Assumptions C08_server_reader.
+
+Theorem C08_server_declared_prefix : forall method uri dated fs dv pieces accepted d,
+  wf_user_fields fs = true -> wf_date_value dv = true -> server_inputs_ok method uri fs = true ->
+  declared_chunked fs = false -> declared_length fs = Some d -> (d <= N.of_nat (length (concat pieces)))%N ->
+  server_receive (out_of (write_request method uri (user_headers dated fs) (date_line dv) pieces accepted))
+    = Some (method, uri, headers_of (shown_fields dated fs dv ++ [(bs "content-length", dec_of d)]),
+            firstn (N.to_nat d) (concat pieces)).
+Proof. exact server_reads_declared_prefix. Qed.
+
+(* the side conditions are exactly what the request parser demands: whatever the server reports satisfies them *)
+Theorem C08_server_conditions_needed : forall method uri h date pieces accepted r b,
+  server_receive (out_of (write_request method uri h date pieces accepted)) = Some (method, uri, r, b) ->
+  server_method_ok method = true /\ server_uri_ok uri = true.
+Proof. exact server_conditions_needed. Qed.
+
+(* ... and they cannot be dropped: the client prints the extension method M-SEARCH (an RFC 9110 token) and khttp's own
+   server answers 400 (methods are alphabetic for its parser - the restriction property C02 also makes) *)
+Theorem C08_server_method_refuted : exists method uri dated fs dv pieces accepted,
+  no_crlf method = true /\ no_crlf uri = true /\ wf_user_fields fs = true /\ wf_date_value dv = true /\
+  forallb HttpGrammar.is_tchar method = true /\ server_uri_ok uri = true /\ forallb server_field_ok fs = true /\
+  parse_request (out_of (write_request method uri (user_headers dated fs) (date_line dv) pieces accepted)) = Err EStatus /\
+  server_receive (out_of (write_request method uri (user_headers dated fs) (date_line dv) pieces accepted)) = None.
+Proof. exact server_method_refuted. Qed.
+Print Assumptions C08_server_method_refuted.
